@@ -75,6 +75,22 @@ func Names(k int) []string {
 	return all[:k]
 }
 
+// RandNames returns k distinct identifiers drawn from a pool of shapes an identifier can have: single
+// letters, letters with digits and underscores, upper case, and words that mean something to the
+// implementation language or to other formula syntaxes (they are plain identifiers in this one).
+func RandNames(r *rand.Rand, k int) []string {
+	pool := []string{"a", "b", "c", "x", "y", "z", "p", "q", "x1", "x2", "x10", "v_1", "_v", "_", "a_b", "Abc9", "X", "Y0", "lit", "var",
+		"go", "if", "else", "for", "func", "type", "map", "range", "chan", "case", "default", "return", "select", "struct", "switch", "import", "package",
+		"const", "break", "defer", "goto", "interface", "continue", "fallthrough", "nil", "true", "false", "iota", "int", "string", "len",
+		"xor", "iff", "implies", "unique", "T", "F", "top", "bottom", "aa", "zz9"}
+	perm := r.Perm(len(pool))
+	res := make([]string, k)
+	for i := range res {
+		res[i] = pool[perm[i]]
+	}
+	return res
+}
+
 // ---- text syntax (C17) ----------------------------------------------------------------------
 
 var prec = map[string]int{"semi": 1, "eq": 2, "imp": 3, "or": 4, "and": 5, "not": 6}
